@@ -237,6 +237,13 @@ def bounded(ctx):
             if want2[0] != got2[0]:
                 viol.append(dict(name="same_plasmid_two_objects", what="vector %s with two module objects wrapping the same plasmid %s: expected %r, got %r" % (
                     vk, ty, want2[:1], got2[:2]), case=dict(vector=vk, module=ty)))
+            # ... and so are two wrappers around one and the same record object
+            evals += 1
+            shared = type(m)(m.record)
+            got3, prod3, w3 = ba.run_assembly(vec, [m, shared])
+            if want2[0] != got3[0]:
+                viol.append(dict(name="one_record_two_wrappers", what="vector %s with two module objects wrapping the same record object %s: expected %r, got %r" % (
+                    vk, ty, want2[:1], got3[:2]), case=dict(vector=vk, module=ty)))
     uniq = {}
     for v in viol:
         uniq.setdefault(v["name"], v)
